@@ -192,6 +192,13 @@ def run(prop, tier):
             td = os.path.join(base, "d%d" % os.getpid())
             st = mk_streams(combo)
             write_trace(td, st)
+            # left-overs next to the stream files (editor backups, copies, notes) are not streams: every event still exactly once
+            if (len(combo) + sum(len(c) for c in combo)) % 3 == 0:
+                for k, (loom, pid, tid, evs) in enumerate(st):
+                    d = os.path.join(td, obs.relpath(loom, pid, tid))
+                    for extra in (("stream.json~", "stream.json.orig", "stream.obs.bak") if k % 2 == 0 else ("notes.txt", "stream.json.1", "xstream.json")):
+                        src = os.path.join(d, "stream.obs" if "obs" in extra else "stream.json")
+                        shutil.copy(src, os.path.join(d, extra))
             # (the directory is named in five ways in turn: plain, trailing slash, ./relative, with /./ and //, bare relative)
             arg, cwd = spelled(td, sum(len(c) for c in combo) + len(combo))
             rc, out, err = emusrv.run_tool(dump, ["-x", arg], cwd=cwd)
